@@ -114,6 +114,22 @@ def main():
                 out[cid] = {"error": f"{type(e).__name__}: {e}"}
         print(json.dumps(out))
         return 0
+    if "--batch" in sys.argv:
+        outs = []
+        for it in payload["items"]:
+            c = cases.get(it["case"])
+            if c is None:
+                outs.append({"reproduced": False, "error": "unknown case id"})
+                continue
+            try:
+                ctx, outcome, detail = _concrete_run(c, mods, model=it["model"])
+                failed = [l for l, _ in ctx.failed]
+                outs.append({"reproduced": it["label"] in failed, "failed": failed[:20], "outcome": outcome, "detail": detail,
+                             "failed_info": [i for l, i in ctx.failed if l == it["label"]][:1], "batch": True})
+            except BaseException as e:
+                outs.append({"reproduced": False, "error": f"{type(e).__name__}: {e}"})
+        print(json.dumps(outs))
+        return 0
     case = cases.get(payload["case"])
     if case is None:
         print(json.dumps({"reproduced": False, "error": "unknown case id"}))
